@@ -85,30 +85,34 @@ def renderPatchM (nc : NumCodec) (d : Diff) : Outcome (Option String) :=
 
 /-! ### reading -/
 
-/-- `json.Unmarshal(text, &[]patchElement)` on the parsed document: field names are matched
-    exactly here (encoding/json also accepts other letter cases; the harness does not generate them) -/
+/-- `readPatchElements(s)` (diff_read.go, after the fix of D31) on the parsed document:
+    `json.Unmarshal` into `[]map[string]json.RawMessage`, then `op`, `path`, `value` taken from every map
+    by their EXACT names. Rejected: a document that is not an array (`null` included), an element
+    that is not an object (`null` included), a missing or non-string `op` / `path`, a missing `value`
+    on `add` and `test` (a `value` member holding null is a value; an op other than add/test without
+    `value` gets null, as jd's own `remove` needs none). Other members are ignored. A member name
+    occurring twice: the parsed object keeps one entry per name, the last one (`parseJson`, as
+    encoding/json does for maps). -/
 def patchOpsOfJson : Json → Outcome (List PatchOp)
-  | .null => .ok []
   | .arr _ xs => go xs
   | _ => .err
 where
   strField (kvs : List (String × Json)) (k : String) : Outcome String :=
     match alookup k kvs with
-    | none => .ok ""
-    | some .null => .ok ""
     | some (.str s) => .ok s
-    | some _ => .err
+    | _ => .err
+  valueField (kvs : List (String × Json)) (op : String) : Outcome Json :=
+    match alookup "value" kvs with
+    | some v => .ok v
+    | none => if op == "add" || op == "test" then .err else .ok .null
   go : List Json → Outcome (List PatchOp)
     | [] => .ok []
     | .obj kvs :: r => do
       let op ← strField kvs "op"
       let path ← strField kvs "path"
-      let value := (alookup "value" kvs).getD .null
+      let value ← valueField kvs op
       let rest ← go r
       pure ({ op, path, value } :: rest)
-    | .null :: r => do
-      let rest ← go r
-      pure ({ op := "", path := "", value := .null } :: rest)
     | _ :: _ => .err
 
 def lastIdxOfPointer (s : String) : Outcome (Option Int) :=
